@@ -172,6 +172,11 @@ def check_case(ctx, case):
                 src.relabel_atoms(mp, copy=False)
                 b = src
     _hash_checks(cls, via, tag, a, b)
+    # ... and as a derived object: subgraph over all atoms in another order
+    order = S.seed_tape(case["tseed"] + 5).shuffle(list(ma.atoms))
+    with guard(f"C03/{cls}/{via}/derived-by-subgraph/{tag}"):
+        d1 = a.subgraph(order)
+    _hash_checks(cls, via + "+subgraph", tag, d1, b)
 
 
 # ---- process independence -------------------------------------------------
@@ -231,7 +236,7 @@ def run(ctx):
         ctx.note(case, nontrivial(case, ma, info), labs)
         check_case(ctx, case)
 
-    ctx.hyp("c03", S.mapped(900, gen), check, ctx.scale(6000, 320000),
+    ctx.hyp("c03", S.mapped(900, gen), check, ctx.scale(4000, 320000),
             shrinker=shrink)
     ctx.hyp("c03-huge", S.mapped(12, gen_huge), check,
             ctx.scale(60, 640), shrinker=shrink)
@@ -281,7 +286,7 @@ def run(ctx):
             "del_bond_stereo"}), ["via:history", f"cls:{case['cls']}"])
 
     ctx.hyp("c03-history", S.mapped(2500, gen_h), check_h,
-            ctx.scale(2500, 100000), shrinker=c01.shrink_history)
+            ctx.scale(1500, 100000), shrinker=c01.shrink_history)
 
     if getattr(ctx, "collect_only", False):
         return                         # atheris stage: generators only
